@@ -186,24 +186,40 @@ func c09Source(cfg c09Config, i int) (string, []c09Call) {
 		if t < cfg.N {
 			name = c09Name(t)
 		}
-		// the call sits in one of six syntactic places (a use() call links
-		// wherever it is written, executed or not)
-		pre, post := "", ""
-		switch (i*3 + j*2 + t) % 6 {
+		// the call sits in one of thirteen syntactic places (a use() call
+		// links wherever it is written, executed or not): as a statement at
+		// top level or inside blocks, and as a loop clause, a condition, an
+		// assignment source or a list element
+		pre, post := "", "\n"
+		switch (i*3 + j*2 + t) % 13 {
 		case 1:
-			pre, post = "if true {\n  ", "}\n"
+			pre, post = "if true {\n  ", "\n}\n"
 		case 2:
-			pre, post = fmt.Sprintf("for q%d = 0; q%d < 1; q%d = q%d + 1 {\n  if q%d > 5 { continue }\n  ", j, j, j, j, j), "}\n"
+			pre, post = fmt.Sprintf("for q%d = 0; q%d < 1; q%d = q%d + 1 {\n  if q%d > 5 { continue }\n  ", j, j, j, j, j), "\n}\n"
 		case 3:
-			pre, post = "for e in [1] {\n  if e == 2 {\n    break\n  }\n  ", "}\n"
+			pre, post = "for e in [1] {\n  if e == 2 {\n    break\n  }\n  ", "\n}\n"
 		case 4:
-			pre, post = "if false {\n} else {\n  if false {\n    ", "  }\n}\n"
+			pre, post = "if false {\n} else {\n  if false {\n    ", "\n  }\n}\n"
 		case 5:
-			pre, post = "for e in \"ab\" {\n  if e == \"a\" { continue } elif e == \"z\" { break }\n  for ; false; {\n    ", "  }\n}\n"
+			pre, post = "for e in \"ab\" {\n  if e == \"a\" { continue } elif e == \"z\" { break }\n  for ; false; {\n    ", "\n  }\n}\n"
+		case 6:
+			pre, post = fmt.Sprintf("for q%d = 1; q%d < 1; ", j, j), " {\n}\n"
+		case 7:
+			pre, post = fmt.Sprintf("for q%d = 1; q%d < 1; ", j, j), " {}\n"
+		case 8:
+			pre, post = "if ", " {\n}\n"
+		case 9:
+			pre, post = "if false {\n} elif ", " {} else {}\n"
+		case 10:
+			pre, post = fmt.Sprintf("z%d = ", j), "\n"
+		case 11:
+			pre, post = "for ", "; false; {\n}\n"
+		case 12:
+			pre, post = fmt.Sprintf("z%d = [1, ", j), "]\n"
 		}
 		sb.WriteString(pre)
 		calls = append(calls, c09Call{Target: name, Pos: sb.Len()})
-		fmt.Fprintf(&sb, "use(\"%s\")\n", name)
+		fmt.Fprintf(&sb, "use(\"%s\")", name)
 		sb.WriteString(post)
 		fmt.Fprintf(&sb, "x%d = %d\n", j, j)
 	}
